@@ -34,6 +34,8 @@ inductive Err
   | spec         -- invalid format specifier for a str
   | unsupported  -- (flat renderer only) nested replacement field inside a format spec
   | recursion    -- `Max string recursion exceeded`: a replacement field three levels deep
+  | tooWide      -- width beyond `maxWidth`: the real formatter allocates the padding (MemoryError, or ValueError
+                 -- 'Too many decimal digits' past the ssize_t range) — outside the compared domain
 deriving DecidableEq, Repr
 
 /-! ### parser -/
@@ -220,6 +222,9 @@ structure Spec where
   precision : Option Nat
 deriving Repr, DecidableEq
 
+/-- `PY_SSIZE_T_MAX` on the 64-bit builds the check runs on -/
+def ssizeMax : Nat := 9223372036854775807
+
 /-- `parse_internal_render_format_spec` + the checks of `format_string_internal` for a `str` argument:
     `[[fill]align][sign][z][#][0][width][,|_][.precision][type]`; sign, `z`, `#`, grouping, `=` alignment and any
     type other than `s` are errors for strings. -/
@@ -263,9 +268,15 @@ def parseSpec (cs : List Char) : Except Err Spec :=
       | .error e => .error e
       | .ok (prec, cs) =>
         let tyOk : Bool := match cs with | [] => true | [t] => t = 's' | _ => false
-        if !tyOk then .error .spec
+        -- `get_integer`: a width / precision past PY_SSIZE_T_MAX is 'Too many decimal digits in format string'
+        if width.getD 0 > ssizeMax || prec.getD 0 > ssizeMax then .error .spec
+        else if !tyOk then .error .spec
         else if align? = some '=' then .error .spec
         else .ok ⟨fill, align?, width, prec⟩
+
+/-- declared bound of the model: a width above it is answered with `tooWide` instead of materialising the padding.
+    With nested spec fields the width is FRAME DATA (`{x:{n}}`); the real formatter has no bound short of memory. -/
+def maxWidth : Nat := 1000000
 
 /-- `format(s, spec)` for a str -/
 def formatStr (s : List Char) (spec : List Char) : Except Err (List Char) :=
@@ -273,6 +284,7 @@ def formatStr (s : List Char) (spec : List Char) : Except Err (List Char) :=
   match parseSpec spec with
   | .error e => .error e
   | .ok sp =>
+    if sp.width.getD 0 > maxWidth then .error .tooWide else
     let s := match sp.precision with | some p => s.take p | none => s
     let pad := (sp.width.getD 0) - s.length
     let left := match sp.align with
